@@ -17,8 +17,12 @@
 //     preedit = j == 0 ? input[0..L) joined by ' '
 //             : j == 1 ? input[0..h) + "\t" + input[h..L) + "|"   (h = (L+1)/2)
 //             : ""
+//   with the context option "verif_short" on, only the first half (rounded up)
+//   of that list is yielded (the candidate COUNT depends on an option).
 #pragma once
 #include <rime/candidate.h>
+#include <rime/context.h>
+#include <rime/engine.h>
 #include <rime/component.h>
 #include <rime/registry.h>
 #include <rime/segmentation.h>
@@ -48,6 +52,7 @@ class OracleTranslator : public rime::Translator {
     auto fifo = rime::New<rime::FifoTranslation>();
     unsigned char c0 = input[0];
     if (c0 == 'x') return fifo;
+    std::vector<rime::an<rime::Candidate>> all;
     std::vector<size_t> lens{n};
     if (c0 != 'u' && c0 != 'v') {
       if (n >= 2) lens.push_back(n - 1);
@@ -67,9 +72,12 @@ class OracleTranslator : public rime::Translator {
           size_t h = (L + 1) / 2;
           preedit = input.substr(0, h) + "\t" + input.substr(h, L - h) + "|";
         }
-        fifo->Append(rime::New<rime::SimpleCandidate>("oracle", seg.start, seg.start + L, text, comment, preedit));
+        all.push_back(rime::New<rime::SimpleCandidate>("oracle", seg.start, seg.start + L, text, comment, preedit));
       }
     }
+    bool shorten = engine_ && engine_->context() && engine_->context()->get_option("verif_short");
+    size_t keep = shorten ? (all.size() + 1) / 2 : all.size();
+    for (size_t i = 0; i < keep; ++i) fifo->Append(all[i]);
     return fifo;
   }
 };
